@@ -42,7 +42,7 @@ type c02Plan struct {
 	protHdr int
 }
 
-var c02Lists = []string{"starttls-required", "starttls-optional", "starttls-absent-sasl-offered", "empty", "starttls-among-others", "unknown-only", "bind-and-sasl-only", "starttls-and-secure-only-voluntary"}
+var c02Lists = []string{"starttls-required", "starttls-optional", "starttls-absent-sasl-offered", "empty", "starttls-among-others", "unknown-only", "bind-and-sasl-only", "starttls-and-secure-only-voluntary", "starttls-required-with-sasl-and-bind"}
 var c02Answers = []string{"proceed", "proceed", "failure", "garbage", "other-namespace", "proceed+pipelined-plaintext", "silence", "cut", "proceed-then-garbage", "whitespace", "whitespace-then-features", "text"}
 
 type c02Outcome struct {
@@ -144,7 +144,7 @@ func c02Session(rc *RC, idx int, tag string, origin jid.JID, neg *c02Neg, plan c
 			fmt.Fprintf(w, `<?xml version='1.0'?><stream:stream xmlns='jabber:client' xmlns:stream='http://etherx.jabber.org/streams' version='1.0' id='%s' from='%s'>%s`, id, location, features)
 		}
 		tlsReq, tlsOpt := `<starttls xmlns='urn:ietf:params:xml:ns:xmpp-tls'><required/></starttls>`, `<starttls xmlns='urn:ietf:params:xml:ns:xmpp-tls'/>`
-		mech := `<mechanisms xmlns='urn:ietf:params:xml:ns:xmpp-sasl'><mechanism>PLAIN</mechanism></mechanisms>`
+		mech := `<mechanisms xmlns='urn:ietf:params:xml:ns:xmpp-sasl'><mechanism>SCRAM-SHA-256</mechanism><mechanism>SCRAM-SHA-1</mechanism><mechanism>PLAIN</mechanism></mechanisms>`
 		bindF := `<bind xmlns='urn:ietf:params:xml:ns:xmpp-bind'/>`
 		var fl string
 		switch c02Lists[plan.list] {
@@ -156,6 +156,9 @@ func c02Session(rc *RC, idx int, tag string, origin jid.JID, neg *c02Neg, plan c
 			fl = mech
 		case "empty":
 			fl = ""
+		case "starttls-required-with-sasl-and-bind":
+			// everything the server has, mandatory, in one list (in either order)
+			fl = []string{tlsReq + mech + bindF, mech + bindF + tlsReq}[plan.answer%2]
 		case "starttls-among-others":
 			fl = `<x xmlns='urn:verif:unknown'/>` + tlsOpt + mech
 		case "unknown-only":
@@ -364,10 +367,11 @@ func c02SessionWS(rc *RC, idx int, tag string, origin jid.JID, feats []xmpp.Stre
 		}
 		simrt.WaitUntil("wsrv:hdrend", func() bool { return o.done || bytes.HasSuffix(bytes.TrimSpace(out.Tap), []byte("/>")) })
 		tlsReq, tlsOpt := `<starttls xmlns='urn:ietf:params:xml:ns:xmpp-tls'><required/></starttls>`, `<starttls xmlns='urn:ietf:params:xml:ns:xmpp-tls'/>`
-		mech := `<mechanisms xmlns='urn:ietf:params:xml:ns:xmpp-sasl'><mechanism>PLAIN</mechanism></mechanisms>`
+		mech := `<mechanisms xmlns='urn:ietf:params:xml:ns:xmpp-sasl'><mechanism>SCRAM-SHA-1</mechanism><mechanism>PLAIN</mechanism></mechanisms>`
 		bindF := `<bind xmlns='urn:ietf:params:xml:ns:xmpp-bind'/>`
 		fl := map[string]string{"starttls-required": tlsReq, "starttls-optional": tlsOpt, "starttls-absent-sasl-offered": mech, "empty": "", "starttls-among-others": `<x xmlns='urn:verif:unknown'/>` + tlsOpt + mech,
-			"unknown-only": `<x xmlns='urn:verif:unknown'/>`, "bind-and-sasl-only": mech + bindF, "starttls-and-secure-only-voluntary": `<vol xmlns='urn:verif:secvol'/>` + tlsOpt}[c02Lists[plan.list]]
+			"unknown-only": `<x xmlns='urn:verif:unknown'/>`, "bind-and-sasl-only": mech + bindF, "starttls-and-secure-only-voluntary": `<vol xmlns='urn:verif:secvol'/>` + tlsOpt,
+			"starttls-required-with-sasl-and-bind": tlsReq + mech + bindF}[c02Lists[plan.list]]
 		open := func(id string) string {
 			return fmt.Sprintf(`<open xmlns="urn:ietf:params:xml:ns:xmpp-framing" id='%s' from='%s' version='1.0'/>`, id, origin.Domain())
 		}
@@ -450,7 +454,10 @@ func runC02(rc *RC) {
 	// ONE set of feature values reused for every session of the sequence
 	secVol := volFeature("urn:verif:secvol", nil)
 	secVol.Necessary = xmpp.Secure
-	feats := []xmpp.StreamFeature{secVol, xmpp.StartTLS(cfg), xmpp.SASL("", "pass", sasl.Plain), xmpp.BindResource()}
+	// the client's mechanisms: PLAIN only, PLAIN after SCRAM, or nothing that ever sends the password itself
+	mechs := [][]sasl.Mechanism{{sasl.Plain}, {sasl.Plain}, {sasl.ScramSha256, sasl.ScramSha1, sasl.Plain}, {sasl.ScramSha256, sasl.ScramSha1}, {sasl.ScramSha1}}[ch.Int("workload", 5)]
+	rc.Describe("client mechanisms: %d", len(mechs))
+	feats := []xmpp.StreamFeature{secVol, xmpp.StartTLS(cfg), xmpp.SASL("", "pass", mechs...), xmpp.BindResource()}
 	// ... and ONE negotiator per tee setting, reused as well
 	negOff, negOn := newC02Neg(feats, false), newC02Neg(feats, true)
 	rc.Describe("cfg-nil=%v sessions=%d", useNil, nSess)
